@@ -168,7 +168,9 @@ class Processor(ABC):
             materialization.
         """
         if original.payload is not None:
-            return original, True
+            # A transfer that holds a payload was processed earlier, and
+            # nothing says that payload is suitable for caching.
+            return original, not isinstance(original, Transfer)
         result: Relation
         payload: Any = None
         match original:
@@ -203,17 +205,20 @@ class Processor(ABC):
                 # transfer to materialize directly.
                 new_target, persisted = self._process_recursive(target, materialize_as=name)
                 if new_target is not target:
-                    result = new_target.materialized(name=name)
-                    if result.payload is not None:
+                    simplified = new_target.materialized(name=name)
+                    if simplified.payload is not None:
                         # This operation has been simplified away
                         # (perhaps it's now a materialization of a
                         # leaf).
-                        original.attach_payload(result.payload)
-                        return result, True
-                else:
-                    result = original
+                        original.attach_payload(simplified.payload)
+                        return simplified, True
                 if persisted:
-                    payload = new_target.payload
+                    # The payload may sit below markers that never hold one
+                    # themselves (e.g. sql.Select).
+                    holder = new_target
+                    while holder.payload is None and isinstance(holder, MarkerRelation):
+                        holder = holder.target
+                    payload = holder.payload
                 elif original.is_join_identity:
                     payload = target.engine.get_join_identity_payload()
                 elif original.max_rows == 0:
@@ -224,9 +229,7 @@ class Processor(ABC):
                 # the processed one, so it's used every time that the
                 # original relation tree is processed.
                 original.attach_payload(payload)
-                if result is not original:
-                    result.attach_payload(payload)
-                return result, True
+                return original.reapply(new_target, payload), True
             case MarkerRelation(target=target):
                 new_target, persisted = self._process_recursive(target, materialize_as=materialize_as)
                 return original.reapply(new_target), persisted
